@@ -384,4 +384,13 @@ package bebop
 //@   invariant loop 1: okTR(tr)
 //@   assert before "return f, warnings, err": [ERRRET] err != nil
 //@   assert before "return f, warnings, nil": [CONSUMED] len(tr.errs) == 0 && ghost("ioerr", tr.r) != 1 && ghost("ateof", tr.r) == 1
+// C11, pending-attribute discipline of the top-level loop: what "[opcode(...)]", "[flags]", "readonly" and the
+// comment lines say is carried in loop-local variables for the NEXT definition only. Every iteration that
+// reaches the end of the loop body (it has handled a definition, or skipped a token that is none) leaves all of
+// them cleared [PENDING], and a record takes exactly the pending values when it is appended [ATTACH].
+//@   invariant loop 1: !nextRecordReadOnly
+//@   assert after "nextRecordOpCode = 0": [PENDING] !nextRecordBitFlags && !nextRecordReadOnly && nextRecordOpCode == 0 && len(nextCommentLines) == 0
+//@   assert after "f.Structs = append(f.Structs, st)": [ATTACH] f.Structs[len(f.Structs)-1].OpCode == nextRecordOpCode && f.Structs[len(f.Structs)-1].ReadOnly == nextRecordReadOnly
+//@   assert after "f.Messages = append(f.Messages, msg)": [ATTACH] f.Messages[len(f.Messages)-1].OpCode == nextRecordOpCode
+//@   assert after "f.Unions = append(f.Unions, union)": [ATTACH] f.Unions[len(f.Unions)-1].OpCode == nextRecordOpCode
 //@   modifies everything
